@@ -229,6 +229,8 @@ def oracle_call(P, ctx, subj, d, claims, classes, n, pattern):
             add('C14', 'a value stored by one thread is never served to another thread (thread scope)', not hit, cond)
         if case is None:
             add('C01', 'a lookup with arguments never stored finds nothing (distinct arguments, distinct keys)', not hit, cond)
+            add('C19', 'every argument and the receiver take part in the key: arguments never stored are not found', not hit, cond)
+            add('C02', 'every argument and the receiver take part in the key: arguments never stored are not found', not hit, cond)
         if case is not None and hit:
             add('C01', 'a hit serves the value stored for the same arguments', simp(term_eq(g.fields[0], d['stored_vals'][case])), cond)
     # ---- the composition after the lookup
